@@ -1,3 +1,4 @@
 //! Kani proof harnesses. One solver query per harness; names are `<cid>_<tier>_<what>`.
 pub mod common;
 pub mod c01;
+pub mod registry;
